@@ -6,6 +6,7 @@ package main
 
 import (
 	"fmt"
+	"io"
 	"math"
 	"strings"
 	"testing"
@@ -31,7 +32,36 @@ type vGotRec struct {
 
 // vParseAll collects the callback sequence of the real callback parser.
 func vParseAll(text string) (recs []vGotRec, errs []string, ret error) {
-	ret = parser.ParseStreamCallback(strings.NewReader(text), parser.NewDefaultConfig(), func(n *shared.ParserNode, err error) (bool, error) {
+	return vParseAllReader(strings.NewReader(text))
+}
+
+func vGotFromNode(n *shared.ParserNode) vGotRec {
+	g := vGotRec{Head: n.Header}
+	for _, e := range n.Elements {
+		g.Names = append(g.Names, e.Name)
+		g.Values = append(g.Values, e.Value)
+	}
+	if n.Metadata != nil {
+		for _, m := range *n.Metadata {
+			g.Notes = append(g.Notes, vPNote{m.Name, m.Value})
+		}
+	}
+	return g
+}
+
+// vParseStreamStop parses with a callback that stops at the first error.
+func vParseStreamStop(r io.Reader, recs *[]vGotRec) error {
+	return parser.ParseStreamCallback(r, parser.NewDefaultConfig(), func(n *shared.ParserNode, err error) (bool, error) {
+		if err != nil {
+			return true, err
+		}
+		*recs = append(*recs, vGotFromNode(n))
+		return false, nil
+	})
+}
+
+func vParseAllReader(r io.Reader) (recs []vGotRec, errs []string, ret error) {
+	ret = parser.ParseStreamCallback(r, parser.NewDefaultConfig(), func(n *shared.ParserNode, err error) (bool, error) {
 		if err != nil {
 			errs = append(errs, err.Error())
 			return false, nil
